@@ -90,4 +90,90 @@ theorem lookup_append_none {l : List (String × ObjId)} {n : String} {c : ObjId}
     | false => simp only [hab] at h ⊢; exact ih h
 
 
+
+theorem attr?_modifyObj_links (s : Store) (g o : ObjId) (f : List (String × ObjId) → List (String × ObjId)) (k : String) :
+    (s.modifyObj g fun ob => { ob with links := f ob.links }).attr? o k = s.attr? o k := by
+  simp only [attr?, obj?_modifyObj]
+  by_cases h : g = o
+  · subst h; cases s.obj? g <;> simp
+  · simp [h]
+
+theorem attr?_addLink (s : Store) (g : ObjId) (n : String) (t o : ObjId) (k : String) : (s.addLink g n t).attr? o k = s.attr? o k :=
+  attr?_modifyObj_links s g o (fun l => l ++ [(n, t)]) k
+
+theorem attr?_alloc_old (s : Store) (ob : Obj) (o : ObjId) (k : String) (h : o < s.objs.length) : (s.alloc ob).1.attr? o k = s.attr? o k := by
+  simp only [attr?, obj?_alloc_old s ob o h]
+
+theorem length_alloc (s : Store) (ob : Obj) : (s.alloc ob).1.objs.length = s.objs.length + 1 := by simp [alloc]
+theorem length_modifyObj (s : Store) (o : ObjId) (f : Obj → Obj) : (s.modifyObj o f).objs.length = s.objs.length := by simp [modifyObj]
+theorem length_setAttr (s : Store) (o : ObjId) (k v : String) : (s.setAttr o k v).objs.length = s.objs.length := length_modifyObj _ _ _
+theorem length_addLink (s : Store) (g : ObjId) (n : String) (t : ObjId) : (s.addLink g n t).objs.length = s.objs.length := length_modifyObj _ _ _
+
+theorem attr?_setAttr_other (s : Store) (o' : ObjId) (k' v : String) (o : ObjId) (k : String) (h : o ≠ o') :
+    (s.setAttr o' k' v).attr? o k = s.attr? o k := by
+  simp only [setAttr, attr?, obj?_modifyObj]
+  simp [Ne.symm h]
+
+/-- opening / creating a container group leaves the attributes of every existing object alone and only ever adds objects -/
+theorem openGroupCreate_old (s : Store) (g : ObjId) (n : String) :
+    s.objs.length ≤ (s.openGroupCreate g n).1.objs.length ∧
+    (∀ o k, o < s.objs.length → (s.openGroupCreate g n).1.attr? o k = s.attr? o k) ∧
+    (s.hasGroup g n = false → (s.openGroupCreate g n).2 = s.objs.length ∧ (s.openGroupCreate g n).1.objs.length = s.objs.length + 1) := by
+  unfold openGroupCreate
+  by_cases h : s.hasGroup g n = true
+  · simp only [h, if_true]
+    split <;> simp
+  · simp only [h]
+    refine ⟨?_, ?_, ?_⟩
+    · simp [length_addLink, length_alloc]
+    · intro o k ho
+      simp [attr?_addLink, attr?_alloc_old _ _ _ _ ho]
+    · intro _
+      simp [length_addLink, length_alloc, alloc_snd]
+
+theorem find_none_hasGroup (s : Store) (g : ObjId) (a n : String) (hn : n.isEmpty = false)
+    (h : s.findGroupByNameOrAttribute g a n = none) : s.hasGroup g n = false := by
+  unfold findGroupByNameOrAttribute at h
+  by_cases ho : s.hasObject g n = true
+  · simp only [ho, if_true] at h
+    simp [hasObject, hn, h] at ho
+  · simp only [hasObject, hn] at ho
+    cases hc : s.child? g n with
+    | none => simp [hasGroup, hc]
+    | some x => simp [hc] at ho
+
+theorem hasGroup_child (s : Store) (p : ObjId) (n : String) (hg : s.hasGroup p n = true) :
+    n.isEmpty = false ∧ ∃ x, s.child? p n = some x ∧ s.hasObject p n = true := by
+  unfold hasGroup at hg
+  cases hn : n.isEmpty with
+  | true => simp [hn] at hg
+  | false =>
+    cases hc : s.child? p n with
+    | none => simp [hn, hc] at hg
+    | some x => exact ⟨rfl, x, rfl, by simp [hasObject, hn, hc]⟩
+
+/-- a lookup by name alone, or by id alone, succeeds when the container has a group under that string -/
+theorem blkFind_single_isSome (s : Store) (blk p : ObjId) (kind v : String)
+    (hp : s.optGroup blk (blockContainer kind) = some p) (hg : s.hasGroup p v = true) :
+    (blkFind s blk kind v "").isSome = true ∧ (blkFind s blk kind "" v).isSome = true := by
+  obtain ⟨hn, x, hc, ho⟩ := hasGroup_child s p v hg
+  have e1 : ("" : String).isEmpty = true := by decide
+  constructor
+  · unfold blkFind
+    simp [hp, hn, e1, ho, hg, hc]
+  · unfold blkFind
+    simp [hp, hn, e1, ho, hg, hc]
+
+theorem blkFind_none_hasGroup (s : Store) (blk p : ObjId) (kind n : String)
+    (hp : s.optGroup blk (blockContainer kind) = some p) (h : blkFindKey s blk kind n = none) : s.hasGroup p n = false := by
+  cases hg : s.hasGroup p n with
+  | false => rfl
+  | true =>
+    obtain ⟨h1, h2⟩ := blkFind_single_isSome s blk p kind n hp hg
+    unfold blkFindKey identOfString at h
+    by_cases hu : looksLikeUUID n = true
+    · simp only [hu, if_true] at h; rw [h] at h2; simp at h2
+    · simp only [hu] at h; simp at h; rw [h] at h1; simp at h1
+
+
 end Nix.St
